@@ -198,6 +198,9 @@ fn scripts(prop: &str) -> Report {
     shards_btc.push(long_templates());
     shards_btc.push(multisig_by_key_count());
     shards_fork.push(multisig_by_key_count());
+    shards_btc.push(decorated_templates(&bitcoin_templates()));
+    shards_fork.push(decorated_templates(&fork_templates()));
+    shards_fork.push(decorated_templates(&bitcoin_templates()));
     if prop != "C14" {
         let n = if thorough { 1_000_000 } else { 300_000 };
         shards_btc.push(history_scripts(n));
@@ -228,7 +231,7 @@ fn scripts(prop: &str) -> Report {
     }
     rep.rule = match prop {
         "C05" => "complete enumeration of: all scripts of length <=2; every single-byte substitution / truncation / one-byte extension of every canonical template instance (3 payload patterns); witness version x length grid; witness lookalikes (256 version bytes x 79 push opcodes x length off-by-one); multisig lookalikes (m,n in 0..16, key counts, key lengths, terminators, trailing ops, missing n); all token sequences over a 21-token alphabet up to the stated length; on bitcoin and testnet3, each evaluated in-process by the repository's eval_from_bytes and compared with the reference classifier; non-trivial = distinct scripts whose reference class is not 'unrecognised'".to_string(),
-        "C06" => "as C05 with the five fork templates, plus every push encoding (direct, PUSHDATA1/2/4, minimal and not) for every template data slot x 15 payload lengths x truncation points, NOP insertion at every token boundary, huge PUSHDATA lengths; on the 6 fork coins".to_string(),
+        "C06" => "as C05 with the five fork templates, plus every push encoding (direct, PUSHDATA1/2/4, minimal and not) for every template data slot x 15 payload lengths x truncation points, NOP insertion at every token boundary, huge PUSHDATA lengths; every template behind a prefix / in front of a suffix from a grammar of name-operation, lock-time and stack-manipulation tokens; on the 6 fork coins".to_string(),
         _ => "every script of the C05 and C06 families plus length/encoding extremes, for all 8 coins' evaluators, under catch_unwind with overflow checks on: no evaluation may panic".to_string(),
     };
     rep.bound = json!({"coins": coins.iter().map(|c| c.name).collect::<Vec<_>>(), "token_sequence_length": tok_len, "shards": items.len()});
